@@ -51,6 +51,17 @@ func fk2Repro() bool {
 	return false
 }
 
+// fk4Repro: on the VM, `import C as C_1` after importing a contract that itself
+// imports C ends in an internal error.
+func fk4Repro() bool {
+	h := host.New()
+	h.Deploy(host.Addr(1), "C", "access(all) contract C { access(all) view fun version(): Int { return 1 } }", host.VM)
+	h.Deploy(host.Addr(1), "B", "import C from 0x1\naccess(all) contract B { access(all) view fun dep(): Int { return C.version() } }", host.VM)
+	r := h.Script("import B from 0x1\nimport C as C_1 from 0x1\naccess(all) fun main(): Int { return B.dep() + C_1.version() }", nil, host.Options{Engine: host.VM})
+	c := host.Classify(r).Class
+	return c == "internal" || c == "panic"
+}
+
 func contractEvents(evs []cadence.Event) []capgen.CEvent {
 	var out []capgen.CEvent
 	for _, e := range evs {
@@ -140,6 +151,10 @@ func TestC26(t *testing.T) {
 		avoid["FK1"] = true
 		rec.ReportKnown("FK1", fk1Repro())
 	}
+	if rec.Known("FK4") {
+		avoid["FK4"] = true
+		rec.ReportKnown("FK4", fk4Repro())
+	}
 	if rec.Known("FK2") {
 		avoid["FK2"] = true
 		rec.ReportKnown("FK2", fk2Repro())
@@ -219,10 +234,21 @@ func TestC26(t *testing.T) {
 		}
 		nt := failedTry && addAfterRemove
 		rec.Case(nt, key.String())
-		if nt && rec.WantSample("nontrivial") {
-			rec.Sample("nontrivial", hist.Steps)
-		} else if rec.WantSample("any") {
-			rec.Sample("any", hist.Steps[0])
+		compact := func() []any {
+			var out []any
+			for _, st := range hist.Steps {
+				out = append(out, map[string]any{"actions": st.Tx.Actions, "abort": st.Tx.Abort, "model_fails": st.Expect.Fails,
+					"model_fail_at": st.Expect.FailAt, "model_error": st.Expect.ErrContains})
+			}
+			return out
+		}
+		switch {
+		case nt && rec.WantSample("nontrivial"):
+			rec.Sample("nontrivial", compact())
+		case !nt && rec.WantSample("trivial"):
+			rec.Sample("trivial", compact())
+		case rec.WantSample("first-transaction-source"):
+			rec.Sample("first-transaction-source", hist.Steps[0].Source)
 		}
 	})
 }
